@@ -89,10 +89,94 @@ func TestC09(t *testing.T) {
 		if _, err := fa.ActivateEVMChain(FAEvmChain{RefID: "test-chain"}); err != nil {
 			t.Fatal(err)
 		}
+		// the valset update published at activation blocks every later message of the chain until a
+		// relayer delivered it; treat it as delivered (removed) so that logic calls get estimated
+		if _, err := fa.WithDeliverCtx(func(ctx sdk.Context) error {
+			// governance has configured the community / security fee rates (without them no fees are ever attached)
+			rates := []string{"0.01", "0.3", "1", "3"}
+			if err := fa.App().TreasuryKeeper.SetCommunityFundFee(ctx, rates[rng.Intn(len(rates))]); err != nil {
+				return err
+			}
+			if err := fa.App().TreasuryKeeper.SetSecurityFee(ctx, rates[rng.Intn(len(rates))]); err != nil {
+				return err
+			}
+			msgs, err := fa.App().ConsensusKeeper.GetMessagesFromQueue(ctx, c09Queue, 0)
+			if err != nil {
+				return err
+			}
+			for _, m := range msgs {
+				if err := fa.App().ConsensusKeeper.DeleteJob(ctx, c09Queue, m.GetId()); err != nil {
+					return err
+				}
+			}
+			return nil
+		}); err != nil {
+			t.Fatal(err)
+		}
 		var history []string
 		created := map[string]bool{}
 		nontrivial := false
 		aborted := false
+		// directed opening: every validator sets the same extreme relayer fee, a logic call is
+		// enqueued, every validator submits the same extreme estimate, and the end-blocker has to
+		// elect it and attach fees.
+		{
+			mults := []string{"1.1", "-1", "-0.5", "1000000000000000000000000000000", "18446744073709551616", "0.000000000000000001", "omitted", "0"}
+			ms := mults[rng.Intn(len(mults))]
+			est := c09Estimates[rng.Intn(len(c09Estimates))]
+			history = append(history, fmt.Sprintf("opening: all fees %s, all estimates %d", ms, est))
+			var txs []FATx
+			for i := range fa.Vals {
+				v := fa.ValidatorOperator(i)
+				fs := treasurytypes.RelayerFeeSetting_FeeSetting{ChainReferenceId: "test-chain"}
+				if ms != "omitted" {
+					m, _ := sdkmath.LegacyNewDecFromStr(ms)
+					fs.Multiplicator = m
+				}
+				txs = append(txs, FATx{Msgs: []sdk.Msg{&treasurytypes.MsgUpsertRelayerFee{Metadata: FAMeta(v.Addr, v.Addr), FeeSetting: &treasurytypes.RelayerFeeSetting{ValAddress: v.ValAddr().String(),
+					Fees: []treasurytypes.RelayerFeeSetting_FeeSetting{fs}}}}, Signers: []*FAAccount{v}})
+			}
+			// enqueue while fees are still sane (assignment needs an eligible relayer), then turn the fees hostile
+			sender0 := make([]byte, 20)
+			call0 := &evmtypes.SubmitLogicCall{HexContractAddress: "0x1000000000000000000000000000000000000009", Abi: []byte("[]"), Payload: []byte{1}, Deadline: fa.Time().Unix() + 5000, SenderAddress: sender0, ContractAddress: sender0}
+			b, _ := fa.WithDeliverCtx(func(ctx sdk.Context) error {
+				_, err := fa.App().EvmKeeper.AddSmartContractExecutionToConsensus(ctx, "test-chain", "verif-turnstone", call0)
+				return err
+			})
+			steps := []func() FABlockResult{
+				func() FABlockResult { return fa.DeliverTxs(txs...) },
+				func() FABlockResult {
+					var etx []FATx
+					for i := range fa.Vals {
+						v := fa.ValidatorOperator(i)
+						msgs, _ := fa.App().ConsensusKeeper.GetMessagesForGasEstimation(fa.CtxCached(), c09Queue, v.ValAddr())
+						var ests []*consensustypes.MsgAddMessageGasEstimates_GasEstimate
+						for _, m := range msgs {
+							ests = append(ests, &consensustypes.MsgAddMessageGasEstimates_GasEstimate{MsgId: m.GetId(), QueueTypeName: c09Queue, Value: est, EstimatedByAddress: v.EthAddr.Hex()})
+						}
+						if len(ests) > 0 {
+							etx = append(etx, FATx{Msgs: []sdk.Msg{&consensustypes.MsgAddMessageGasEstimates{Metadata: FAMeta(v.Addr, v.Addr), Estimates: ests}}, Signers: []*FAAccount{v}})
+						}
+					}
+					return fa.DeliverTxs(etx...)
+				},
+				func() FABlockResult { return fa.NextBlock() },
+				func() FABlockResult { return fa.NextBlock() },
+			}
+			for si := 0; b.OK() && si < len(steps); si++ {
+				r.Op(fmt.Sprintf("block %d %d", b.Height, len(b.Txs)), "ok")
+				b = steps[si]()
+			}
+			if !b.OK() {
+				aborted = true
+				r.Op(fmt.Sprintf("block %d %d", fa.Height()+1, 0), "aborted")
+				r.Hit("block_never_aborts", fmt.Sprintf("block aborted in the directed opening: %v %s", b.Err, firstLines(b.Panic, 6)),
+					map[string]interface{}{"seed": seed, "history": history})
+			} else {
+				r.Op(fmt.Sprintf("block %d %d", b.Height, len(b.Txs)), "ok")
+			}
+			r.Stat("opening." + ms)
+		}
 		for fa.Height() < maxH && !aborted {
 			// jump to just before an interesting height class now and then
 			if rng.Intn(12) == 0 {
